@@ -120,15 +120,25 @@ impl<VM: VMBinding, R: Region + 'static> RegionPageResource<VM, R> {
             }
             b.next_region += 1;
         }
-        // Else allocate a new region.
-        let PRAllocResult {
+        // Else allocate a new region.  The monotone page resource commits the whole region to
+        // the (shared) page accounting.  Only the pages handed out from the region are in use,
+        // so reserve the region for that call, take it out of the books again afterwards, and
+        // commit the pages of this request like in the case above.
+        self.common().accounting.reserve(Self::REGION_PAGES);
+        let Ok(PRAllocResult {
             start, new_chunk, ..
-        } = self.mpr.alloc_pages(
+        }) = self.mpr.alloc_pages(
             space_descriptor,
             Self::REGION_PAGES,
             Self::REGION_PAGES,
             tls,
-        )?;
+        )
+        else {
+            self.common().accounting.clear_reserved(Self::REGION_PAGES);
+            return Result::Err(PRAllocFail);
+        };
+        self.common().accounting.release(Self::REGION_PAGES);
+        self.commit_pages(reserved_pages, required_pages, tls);
         b.all_regions.push(AllocatedRegion {
             region: R::from_aligned_address(start),
             cursor: Atomic::<Address>::new(start),
